@@ -37,6 +37,9 @@ type ioCase struct {
 	// Writer: the sequence goes through NewEncoder(w); steps may then also be {"op":"resetbuffer"},
 	// which must not change what reaches w
 	Writer bool `json:"writer,omitempty"`
+	// Reuse: the sequence is decoded back into ONE destination per Go type (the second value of a type is
+	// decoded over what the first left there), as a caller reusing a variable does
+	Reuse bool `json:"reuse,omitempty"`
 	// TZ: offset in seconds of the zone installed as time.Local while this case runs (0 = leave it)
 	TZ int `json:"tz,omitempty"`
 }
@@ -245,7 +248,7 @@ func runCase(line []byte, out *json.Encoder) error {
 			}
 			if mo.RTPanic == "" {
 				p := safely(func() {
-					ctx := &eqctx{visited: map[[2]uintptr]bool{}}
+					ctx := &eqctx{visited: map[[2]uintptr]bool{}, sharing: m == "ref"}
 					mo.RT = ctx.eq(top, dst.Elem(), "$")
 				})
 				if p != "" {
@@ -331,6 +334,7 @@ func runSeq(c *ioCase, obs *ioObs) {
 			}
 			so.Hex = hex.EncodeToString(data)
 			dec := hio.NewDecoder(data).Simple(m == "simple")
+			reused := map[reflect.Type]reflect.Value{}
 			so.DecPanic = safely(func() {
 				for i, it := range items {
 					if it.reset {
@@ -341,12 +345,19 @@ func runSeq(c *ioCase, obs *ioObs) {
 						continue
 					}
 					dst := reflect.New(it.v.Type())
+					if c.Reuse {
+						if old, ok := reused[it.v.Type()]; ok {
+							dst = old
+						} else {
+							reused[it.v.Type()] = dst
+						}
+					}
 					dec.Decode(dst.Interface())
 					if dec.Error != nil {
 						so.DecErr = fmt.Sprintf("step %d: %v", i, dec.Error)
 						return
 					}
-					ctx := &eqctx{visited: map[[2]uintptr]bool{}}
+					ctx := &eqctx{visited: map[[2]uintptr]bool{}, sharing: m == "ref"}
 					if r := ctx.eq(it.v, dst.Elem(), fmt.Sprintf("$%d", i)); r != "" && so.RT == "" {
 						so.RT = r
 					}
